@@ -119,6 +119,7 @@ structure DS where
   lm : Option LmD := none
   hs : Option HsD := none
   ioblock : Bool := false
+  fdlimit : Bool := false
   attempts : Nat := 0
 
 def gated (d : DS) : Act → Bool
@@ -235,6 +236,15 @@ partial def loop (h : IO.FS.Stream) (d : DS) : IO Unit := do
     let d := settle d (fuelOf d)
     IO.println (obs d)
     loop h d
+  if d.fdlimit && ws.head? != some "C" then
+    -- conns whose descriptor does not fit the engine's table are refused at the door (addConn / addDialer: test before
+    -- anything else): no open, no close notification, every DialAsync returns the error, nothing for Stop to wait for
+    match ws with
+    | "O" :: "run" :: rest =>
+      let dials := ((Drv.field rest "dials").map String.toNat!).getD 0
+      IO.println s!"R ret=nil dialerrs={dials} panics=0 opens=0 closes=0"; loop h d
+    | _ => IO.println "R -"; loop h d
+  else
   if d.ioblock && ws.head? != some "C" then
     -- Stop racing a busy read task of the IO pool: Stop returns (the pool's Stop unblocks the hand-over: TPool, C19)
     match ws with
@@ -259,7 +269,7 @@ partial def loop (h : IO.FS.Stream) (d : DS) : IO Unit := do
     let lm := if rest.contains "lmux" then some ({ s := Lmux.init (((Drv.field rest "maxa").map String.toNat!).getD 0) } : LmD) else none
     let hs := if rest.contains "hsim" then some ({ blk := Drv.field rest "io" == some "blk" } : HsD) else none
     loop h { s := init, heldOpen := [], heldClose := false, real := rest.contains "real", lm := lm, hs := hs,
-             ioblock := rest.contains "ioblock", attempts := ((Drv.field rest "attempts").map String.toNat!).getD 0 }
+             ioblock := rest.contains "ioblock", fdlimit := rest.contains "fdlimit", attempts := ((Drv.field rest "attempts").map String.toNat!).getD 0 }
   | ["O", "new"] =>
     let c := d.s.conns.length
     fin { (applyActs d [.new .transfer, .open c]) with heldOpen := c :: d.heldOpen }
